@@ -237,6 +237,13 @@ class TlsExtensionServerNameClient(TlsExtensionParsed):
     host_name = attr.ib(validator=attr.validators.instance_of(six.string_types))
     name_type = attr.ib(validator=attr.validators.in_(TlsServerNameType), default=TlsServerNameType.HOST_NAME)
 
+    @host_name.validator
+    def _host_name_validator(self, _, value):
+        try:
+            six.ensure_binary(value, 'idna')
+        except UnicodeError as e:  # an empty or too long label: a name that has no wire form
+            six.raise_from(InvalidValue(value, type(self), 'host_name'), e)
+
     @classmethod
     def get_extension_type(cls):
         return TlsExtensionType.SERVER_NAME
